@@ -182,7 +182,7 @@ def emit_sources(types, gens, entries, outdir):
         for e in by_pk[pk]:
             if not e['generic']:
                 a = 'int64(t.A)*1000003 + ' if e['layout'] != 4 else ''
-                src.append(f'func (t {"*" if e["ptr"] else ""}{e["T"]}) {e["m"]}({PARAMS[e["np"]][0]}) int64 {{ return {a}{e["K"]}{body_tail(e["np"])} }}')
+                src.append(f'func (t {"*" if e["ptr"] else ""}{e["T"]}) {e["m"]}({PARAMS[e["np"]][0]}) int64 {{ return {a}{e["K"]}{body_tail(e["np"], e["id"] % 3 == 1)} }}')
         src.append('')
         for e in by_pk[pk]:
             src.append(call_func(e))
@@ -219,7 +219,10 @@ def emit_sources(types, gens, entries, outdir):
     return dict(files)
 
 
-def body_tail(np_):
+def body_tail(np_, helper=False):
+    """non-leaf variant: the multiplication goes through the (never inlined) helper w.Id, so the body contains a CALL"""
+    if helper:
+        return [' + w.Id(0)', ' + w.Id(x*31)', ' + w.Id(x*31) + int64(len(s))'][np_]
     return ['', ' + x*31', ' + x*31 + int64(len(s))'][np_]
 
 
@@ -373,6 +376,15 @@ def gen_hists(tier, rng, entries):
         e1, e2 = find('ab', 'T', m), find('a', 'b_T', m)
         H.append(('collide-underscore', [step_tok('ES', e1), step_tok('ES', e2)]))
         H.append(('collide-underscore', [step_tok('ES', e2), step_tok('ES', e1)]))
+    # lane 3b: two methods of ONE type in one builder (prefix / case related names first), same API path
+    for (pk, T), es in by_type.items():
+        pairs = [(a, b) for a in es for b in es if a['id'] < b['id'] and
+                 (a['m'].startswith(b['m']) or b['m'].startswith(a['m']) or a['m'].lower() == b['m'].lower())]
+        others = [(es[i], es[i + 1]) for i in range(len(es) - 1)]
+        for a, b in (pairs + others)[:3 if tier == 'quick' else 8]:
+            common = [v for v in vias_for(a) if v in vias_for(b)]
+            for via in common:
+                H.append(('siblings', [step_tok(via, a), step_tok(via, b)]))
     # lane 4: random histories: 2..5 steps incl. re-mocks of the same method, siblings, resets, malformed steps
     nr = 120 if tier == 'quick' else 2500
     for _ in range(nr):
